@@ -14,7 +14,19 @@ pub fn run_misc(toks: &[&str]) -> String {
             let io = toks[1] == "io";
             let ts: u64 = n(toks[2]);
             let a: u64 = n(toks[3]);
-            let g = match (io, ts) {
+            let g = match std::panic::catch_unwind(|| match (io, ts) {
+                // register types of other sizes have no Access Size code: the constructors must refuse them
+                (true, 0) => GenericAddress::io_port_address::<()>(a as u16),
+                (true, 3) => GenericAddress::io_port_address::<[u8; 3]>(a as u16),
+                (true, 6) => GenericAddress::io_port_address::<[u16; 3]>(a as u16),
+                (true, 16) => GenericAddress::io_port_address::<u128>(a as u16),
+                (false, 0) => GenericAddress::mmio_address::<()>(a),
+                (false, 3) => GenericAddress::mmio_address::<[u8; 3]>(a),
+                (false, 5) => GenericAddress::mmio_address::<[u8; 5]>(a),
+                (false, 6) => GenericAddress::mmio_address::<[u16; 3]>(a),
+                (false, 12) => GenericAddress::mmio_address::<[u8; 12]>(a),
+                (false, 16) => GenericAddress::mmio_address::<u128>(a),
+                (false, 32) => GenericAddress::mmio_address::<[u8; 32]>(a),
                 (true, 1) => GenericAddress::io_port_address::<u8>(a as u16),
                 (true, 2) => GenericAddress::io_port_address::<u16>(a as u16),
                 (true, 4) => GenericAddress::io_port_address::<u32>(a as u16),
@@ -23,7 +35,7 @@ pub fn run_misc(toks: &[&str]) -> String {
                 (false, 2) => GenericAddress::mmio_address::<u16>(a),
                 (false, 4) => GenericAddress::mmio_address::<u32>(a),
                 (false, _) => GenericAddress::mmio_address::<u64>(a),
-            };
+            }) { Ok(g) => g, Err(_) => return "panic".to_string() };
             hex(g.as_bytes())
         }
         "gaspci" => {
@@ -81,6 +93,8 @@ pub fn gen_misc(r: &mut Rng, tier: &str, emit: &mut dyn FnMut(String)) {
             emit(format!("gaddr mmio {} {}", ts, r.scalar(64)));
         }
     }
+    for ts in [0u64, 3, 6, 16] { emit(format!("gaddr io {} {}", ts, r.scalar(16))); }
+    for ts in [0u64, 3, 5, 6, 12, 16, 32] { emit(format!("gaddr mmio {} {}", ts, r.scalar(64))); }
     // GAS::new_pci_config: every (device, function) pair, registers at the edges
     for dev in 0..32u64 { for fun in 0..8u64 { for reg in [0u64, 0x40, 0xfff, 0xffff] {
         emit(format!("gaspci 32 3 {} {} {}", dev, fun, reg));
